@@ -118,6 +118,7 @@ func c04Exec(t *testing.T, p *C04Plan, seed uint64, crash0 int, noCrash bool, re
 			return p.Runners[n%len(p.Runners)]
 		})
 		var units []*c04Unit
+		var restartTimes []time.Time
 		crashes := append([]c04Crash(nil), p.Crashes...)
 		if noCrash {
 			crashes = nil
@@ -156,6 +157,7 @@ func c04Exec(t *testing.T, p *C04Plan, seed uint64, crash0 int, noCrash bool, re
 				return false
 			}
 			res.Add("restarts", 1)
+			restartTimes = append(restartTimes, time.Now())
 			ci++
 			incStart = w.Now()
 			arm(ci)
@@ -280,7 +282,7 @@ func c04Exec(t *testing.T, p *C04Plan, seed uint64, crash0 int, noCrash bool, re
 		}
 		time.Sleep(longest + 6*time.Second)
 		simnet.Quiesce()
-		c04Oracle(w, node, runners, units, res)
+		c04Oracle(w, node, runners, units, mon, restartTimes, res)
 		for _, tr := range mon.Transitions() {
 			if why := simwork.CheckForward(tr); why != "" {
 				res.Add("probe_backward_write_seen", 1) // C13's concern; reported there
@@ -308,7 +310,7 @@ func c04DaemonSteps(ctl *simwork.StepCtl, node *simwork.WorkNode) int {
 	return n
 }
 
-func c04Oracle(w *simnet.World, node *simwork.WorkNode, runners *simwork.Runners, units []*c04Unit, res *simnet.Result) {
+func c04Oracle(w *simnet.World, node *simwork.WorkNode, runners *simwork.Runners, units []*c04Unit, mon *simwork.Monitor, restarts []time.Time, res *simnet.Result) {
 	c := node.Session("unix")
 	defer c.Close()
 	if _, err := c.Hello(); err != nil {
@@ -359,7 +361,19 @@ func c04Oracle(w *simnet.World, node *simwork.WorkNode, runners *simwork.Runners
 				wantSize = 0
 			}
 			if state != wantState || size != wantSize {
-				res.Violate("c04:outcome-lost", "unit %s finished with state %d size %d; after restart it is reported as state %d (%v) size %d", u.id, wantState, wantSize, state, st["Detail"], size)
+				// is the outcome gone from the record itself, or does the daemon just not report what the record says?
+				disk := simwork.ParseRecord([]byte(readRecordFull(node, u.id)))
+				if disk.Valid && disk.State == wantState && disk.StdoutSize == wantSize {
+					sig := "c04:outcome-not-followed"
+					if c04MarkedPendingThenLeftAlone(mon, u.id, restarts) {
+						// the known 'Pending at restart' problem in its other guise: the mark was taken for final
+						sig = "c04:outcome-not-followed|pending-at-restart-mark"
+					}
+					res.Violate(sig, "unit %s finished with state %d size %d and its record says so, but the restarted daemon reports state %d (%v) size %d", u.id, wantState, wantSize, state, st["Detail"], size)
+				} else {
+					res.Violate("c04:outcome-lost", "unit %s finished with state %d size %d; after restart the record says state %d (%s) size %d and the daemon reports state %d (%v) size %d",
+						u.id, wantState, wantSize, disk.State, disk.Detail, disk.StdoutSize, state, st["Detail"], size)
+				}
 				continue
 			}
 			// complete output can still be fetched
@@ -387,6 +401,50 @@ func c04Oracle(w *simnet.World, node *simwork.WorkNode, runners *simwork.Runners
 			res.Violate("c04:query-blocks|status", "work status %s after restart: %q %v", u.id, reply, err)
 		}
 	}
+}
+
+// c04MarkedPendingThenLeftAlone reports whether the unit was marked 'Failed: Pending at restart' while its runner was
+// alive and then either the runner wrote nothing for a second (the daemon's monitor gives up on a finished-looking
+// unit at its first one-second check) or another restart took the mark for the final state.
+func c04MarkedPendingThenLeftAlone(mon *simwork.Monitor, unit string, restarts []time.Time) bool {
+	trs := mon.Transitions()
+	for i, tr := range trs {
+		if tr.Unit != unit || tr.New.Detail != "Pending at restart" {
+			continue
+		}
+		next := time.Time{}
+		for _, t2 := range trs[i+1:] {
+			if t2.Unit == unit && strings.Contains(t2.By, "-runner-") {
+				next = t2.At
+				break
+			}
+		}
+		if next.IsZero() || next.Sub(tr.At) > 900*time.Millisecond {
+			return true
+		}
+		for _, rt := range restarts {
+			if rt.After(tr.At) && !rt.After(next) {
+				return true
+			}
+		}
+		// a later restart that still found the mark on disk
+		for _, rt := range restarts {
+			if rt.After(tr.At) {
+				for _, t2 := range trs[i+1:] {
+					if t2.Unit == unit && t2.At.Before(rt) && t2.New.State != 3 {
+						return false
+					}
+				}
+				return true
+			}
+		}
+	}
+	return false
+}
+
+func readRecordFull(node *simwork.WorkNode, unit string) string {
+	b, _ := os.ReadFile(filepath.Join(node.UnitDirReal(unit), "status"))
+	return string(b)
 }
 
 func readRecord(node *simwork.WorkNode, unit string) string {
